@@ -202,6 +202,42 @@ def _check_mf(case):
     return (nontrivial, fp, None)
 
 
+_INTERNAL_NAMES = ("y_true", "y_pred")         # names MetricFrame gives the columns of its internal frame
+
+
+def _check_names(case):
+    """the NAME of a pandas Series / of the single DataFrame column is container metadata as well: the result must be the plain-list result whatever it is"""
+    import pandas as pd
+    rng = np.random.default_rng(case[1])
+    d = _dataset(rng, k_sf=1)
+    fp = fingerprint(case)
+    args = _args(d, True, ("yp", "w", "w2"))
+    o, desc0, _ = _build(d, {a: "list" for a in args}, rng, True)
+    try:
+        base = _mf_results(_mf_call(o, True))
+    except Exception as ex:
+        return _viol(True, fp, "MetricFrame:base-raises", f"MetricFrame on plain lists raised {ex!r}"[:300], case, d, desc0)
+    which = ("sf", "cf") if "cf" in o else ("sf",)
+    arg = which[case[2] % len(which)]
+    name = (_INTERNAL_NAMES + ("sex", "score", "label", "0"))[(case[2] // 2) % 6]
+    col = o[arg]
+    o2 = dict(o)
+    o2[arg] = pd.Series(list(col), name=name) if (case[2] // 12) % 2 == 0 else pd.DataFrame({name: list(col)})
+    desc = {**desc0, arg: f"{type(o2[arg]).__name__} named {name!r}"}
+    try:
+        res = _mf_results(_mf_call(o2, True))
+    except Exception as ex:
+        key = "MetricFrame:raises:feature-named-like-internal-column" if name in _INTERNAL_NAMES else "MetricFrame:raises:named-feature"
+        return _viol(True, fp, key, f"MetricFrame raised {ex!r} for the {arg} given as a {type(o2[arg]).__name__} named {name!r}; plain lists are accepted"[:300],
+                     case, d, desc)
+    for nm in base:
+        diff = K.first_diff(res[nm], base[nm])
+        if diff:
+            return _viol(True, fp, "MetricFrame:named-feature:" + nm.split(":")[0], f"MetricFrame.{nm} with the {arg} named {name!r} differs from the "
+                         f"plain-list result ({diff})", case, d, desc, res[nm], base[nm])
+    return (True, fp, None)
+
+
 def _named_call(fm, name, o, method):
     kw = {"sensitive_features": o["sf"], "sample_weight": o["w"]}
     if name.endswith(("_difference", "_ratio")):
@@ -492,7 +528,7 @@ def _check_to(case):
 
 
 CHECKS = {"mf": _check_mf, "named": _check_named, "perm": _check_perm, "bij": _check_bij, "dictser": _check_dict_series,
-          "moment": _check_moment, "eg": _check_reduction, "gs": _check_reduction, "to": _check_to}
+          "names": _check_names, "moment": _check_moment, "eg": _check_reduction, "gs": _check_reduction, "to": _check_to}
 
 
 def _check(case):
@@ -521,7 +557,9 @@ def run_bounded(rep):
             ("exponentiated_gradient", "eg", 100 if q else 700, "ExponentiatedGradient.fit (stump / LogisticRegression, max_iter 6)"),
             ("grid_search", "gs", 130 if q else 900, "GridSearch.fit (grid_size 5)"),
             ("threshold_optimizer", "to", 280 if q else 1800, "ThresholdOptimizer fit/_pmf_predict/predict over every supported constraint x objective"),
-            ("dict_of_series", "dictser", 12 if q else 60, "MetricFrame with a dict of Series with different index labels")]
+            ("dict_of_series", "dictser", 12 if q else 60, "MetricFrame with a dict of Series with different index labels"),
+            ("feature_names", "names", 48 if q else 240, "MetricFrame with a sensitive / control feature given as a Series or one-column DataFrame whose name is "
+                                                          "y_true, y_pred, sex, score, label or 0")]
     for si, (name, kind, count, text) in enumerate(plan):
         cases = [(kind, rep.seed * 1000003 + si * 100003 + i, i) for i in range(count)]
         run_cases(rep, name, rule=f"{text}; seeded datasets n=6..12, containers and index labels (permuted/offset/duplicated/string/reversed) drawn per "
